@@ -530,6 +530,20 @@ def build_frame(fr):
     return df
 
 
+def _second_frame(fr):
+    """A second frame over the same individuals and observables: other values, other dose amounts (same layout)."""
+    import copy
+    fr2 = copy.deepcopy(fr)
+    jv = fr2['fields'].index('value') if 'value' in fr2['fields'] else None
+    jd = fr2['fields'].index('dose') if 'dose' in fr2['fields'] else None
+    for r in fr2['rows']:
+        if jv is not None and isinstance(r[jv], (int, float)) and not isinstance(r[jv], bool):
+            r[jv] = r[jv] * 2 + 1
+        if jd is not None and isinstance(r[jd], (int, float)) and not isinstance(r[jd], bool):
+            r[jd] = r[jd] * 3
+    return fr2
+
+
 def _tok(v):
     """Canonical token of a number: float, or 'nan' for a missing / non-finite entry."""
     if v is None:
@@ -862,6 +876,18 @@ def check(case):
             return
         traces = list(fig._fig.data)[n0:]
         _check_data_traces(case, pre, fig._fig, traces, data, _resolve(s['observable'], data), pk, not pk)
+        # a second data frame is added to the SAME figure (period 2 of a cross-over study: the same individuals, other
+        # values and doses): its traces hold exactly its rows, whatever the figure holds already
+        if not case.fails:
+            data2 = _second_frame(data)
+            df2 = watch.add('second data', build_frame(data2))
+            n_first = len(fig._fig.data)
+            with case.clause(pre + 'call:add_data_second'):
+                fig.add_data(df2, observable=s['observable'], **kw)
+            watch.verify(case, pre + 'unmodified:add_data_second')
+            if (pre + 'call:add_data_second') in case.checked:
+                _check_data_traces(case, pre + 'second:', fig._fig, list(fig._fig.data)[n_first:], data2,
+                                   _resolve(s['observable'], data2), pk, not pk)
         if pk:
             with case.clause(pre + 'simulation'):
                 try:
